@@ -69,6 +69,7 @@ def run(ctx):
     _rowgroupby(ctx, rep)
     _groupselect(ctx, rep)
     _keyless(ctx, rep)
+    _mergedup_guard(ctx, rep)
     from .plumbing import check_plumbing
     rep.rule('R9.7', 'view -> iterator plumbing of the grouping operators: self.X reaches the parameter named X')
     ctx.floor('plumbing_sites', check_plumbing(ctx, rep, 'R9.7', ['petl.transform.reductions', 'petl.transform.dedup', 'petl.transform.reshape']), 35)
@@ -235,6 +236,32 @@ def _groupselect(ctx, rep):
             if not ok_pres:
                 why.append('presorted must not be forwarded: the value sort destroyed the key order')
             rep.violated('R9.5', fn, norm(c)[:70], '; '.join(why), c)
+
+
+# ------------------------------------------------------------------------- R9.8
+def _mergedup_guard(ctx, rep):
+    """mergeduplicates: a value is read from a group row only if the row is long
+    enough (a Record returns None, not `missing`, for an absent cell)."""
+    rep.rule('R9.8', 'mergeduplicates reads row[i] only under a length guard (absent cells are neither values nor conflicts)')
+    fn = ctx.project.need_fn('petl.transform.reductions:itermergeduplicates')
+    n = 0
+    for c in [x for x in own_nodes(fn.node) if isinstance(x, (ast.GeneratorExp, ast.ListComp, ast.SetComp))]:
+        if any(isinstance(x, (ast.GeneratorExp, ast.ListComp, ast.SetComp)) for x in ast.walk(c.elt)):
+            continue      # judged on the innermost comprehension
+        subs = [x for x in ast.walk(c.elt) if isinstance(x, ast.Subscript) and norm(x.value) == 'row']
+        if not subs:
+            continue
+        n += 1
+        guards = [norm(i) for g in c.generators for i in g.ifs]
+        ok = any('len(row)' in g for g in guards)
+        if ok:
+            rep.held('R9.8', fn, norm(c)[:70], 'guarded by a length test', c)
+        else:
+            rep.violated('R9.8', fn, norm(c)[:70],
+                         'cells are read from the rows of a group without testing the row length: for a short row a Record '
+                         'yields None, which is merged as a value (phantom None / spurious Conflict) whenever `missing` is not None', c)
+    if n == 0:
+        raise AnalysisError('anchor vanished: value collection in itermergeduplicates')
 
 
 # ------------------------------------------------------------------------- R9.6
